@@ -10,14 +10,30 @@ TRUSTED = [
     " (tied to /repo by the correspondence run, not verified code)",
     "Go harness harness/cmd/hC06 (corpus generator, exact float64 -> m*2^e printer, token-id table) and"
     " harness/internal/fracbuild; strconv.ParseFloat for the value of a decimal token (data supplied per case)",
-    "spec checker props/C06/coq/CaseDefs.v (case_spec_ok: filters/counts over the whole corpus)",
+    "spec checker props/C06/coq/CaseDefs.v (case_spec_ok: filters/counts over the whole corpus; float path: exact integer"
+    " arithmetic in units 2^-1074, Sum within N*2^-52*sum|x| + N units of the exact sum, Min/Max exact, Avg = RNE(Sum/Total))",
+    "hand-written float model props/C06/coq/ModelFloat.v (NewSamplesContainers, InsertNTimes, Merge, getAggBucket, parseNum, Go min/max;"
+    " IEEE binary64 = Coq.Floats.SpecFloat operations with prec 53 / emax 1024, proved equal to Flocq 4 Bplus/Bmult/Bdiv/Bcompare/"
+    "binary_normalize mode_NE in ProofsFloat.v); the harness's IEEE bit patterns, document visiting order ((mid, rid) descending, ascending"
+    " for reverse), Searcher merge order (stable sort by To desc / From asc) and its search for the map-iteration-order witness"
+    " (validated as a permutation inside Coq)",
+    "standard-library axioms used by the float theorems C06_float_* only (Coq Reals / Flocq): ClassicalDedekindReals.sig_not_dec,"
+    " ClassicalDedekindReals.sig_forall_dec, FunctionalExtensionality.functional_extensionality_dep, Classical_Prop.classic;"
+    " the executable models and the case evaluation do not depend on them",
 ]
 ASSUME = [
     "single-valued group/field tokens; numeric field tokens parse as finite floats; timestamps >= the interval"
     " (a bucket at MID 0 is the code's 'no timestamp' marker and is dropped by SkipWithoutTimestamp)",
     "no real group token is literally '_not_exists' (the count aggregator's legacy bin of that name overwrites it)",
-    "exact arithmetic: sums are proved over integers (units 2^-scale); float64 rounding of Sum/Avg is checked"
-    " bit-exactly on exactly representable streams and with relative tolerance 1e-9 on general decimals (PARTIAL)",
+    "exact-integer model: sums are proved over integers (units 2^-scale); its cases (CAgg) compare float64 Sum/Avg bit-exactly on"
+    " exactly representable streams and coarsely (1e-9) on general decimals - the authoritative float comparison is the float"
+    " model's (CAggF): bit-exact on ALL streams",
+    "float model: amd64 without fused multiply-add (GOAMD64=v1: num*float64(cnt) and the addition are rounded separately);"
+    " Total <= 2^53 and no int64 wrap; all NaNs identified; the order in which TwoSourceAggregator.Aggregate ranges over its Go map"
+    " is an input (witness) - the grouped Sum over general decimals is NOT a function of the documents in the real code;"
+    " the error bound theorem covers one fraction's chain only (C06_float_sum_error_bound_partial)",
+    "extreme-value worlds run without wire/JSON conversion: proto3 drops the sign of a -0.0 Min/Max, encoding/json refuses a"
+    " Sum that overflowed to Inf/NaN (findings reported, not counted)",
     "quantiles are dyadic (a/2^b) so that float64(len-1)*q+0.5 is computed without rounding",
     "more than 8096 samples in one bin: the random reservoir replacement is not modelled; only Min/Max/Sum/Total"
     " stay exact and each reported quantile must be one of the bin's values",
@@ -27,7 +43,10 @@ RULE = ("random corpora (3..60 documents, optional group/field tokens, decimal/e
         "8096-50..8096+600 samples in one bin; per search 1..3 aggregations (all 7 functions x group x interval, "
         "quantile lists incl. [0],[1],[0,1]) and a histogram; per-fraction results merged by the real MergeQPRs in "
         "random merge trees (optionally through the store->proxy wire conversion or the JSON codec) and by the real "
-        "Searcher. non-trivial = at least 3 selected documents in at least 2 fractions and a bin with several "
+        "Searcher. Every sum/min/max/avg/quantile aggregation is additionally emitted as a float case: documents in visiting "
+        "order with IEEE bit patterns, recorded merge tree, Min/Max/Sum bits of every bin and bucket values compared bit-exactly; "
+        "one world in ten uses extreme values (1e308, 5e-324, -0.0, 1e16/-1e16/1, 2^53+1, hex floats) or tokens parseNum rejects "
+        "(NaN, Inf, 1e999, abc, ...: which fractions and whether the Searcher fail). non-trivial = at least 3 selected documents in at least 2 fractions and a bin with several "
         "documents or several bins; distinct by input")
 
 
